@@ -88,8 +88,17 @@ def generate(rng, tier):
             pcs.append({"level": l, "gt": False, "np": rng.choice([2, 3, 5, 10])})
         if rng.random() < 0.2:
             pcs.append({"level": lv[0], "gt": True, "np": 4})
+        ld = "float64"
+        if dt == "float64" and rng.random() < 0.25:
+            # levels handed over as integers (Python int / integer array) or as a float32 array: the function values are shifted a
+            # little so that no vertex value is an integer
+            cand = [x for x in range(int(np.floor(min(f))) + 1, int(np.ceil(max(f)))) if all(abs(x - y) > 1e-3 for y in f)]
+            if cand:
+                ld = rng.choice(["int", "int", "float32"])
+                lv = [float(x) for x in rng.sample(cand, min(len(cand), rng.choice([1, 2, 3])))]
+                pcs = [{"level": lv[0], "gt": False, "np": 0}, {"level": lv[0], "gt": True, "np": 0}]
         cases.append({"family": fam, "v": P.tolist(), "t": t, "f": f, "dtype": dt, "kind": kind, "levels": lv, "paths": pcs,
-                      "ncols": 2 if rng.random() < 0.06 else 1, "scale": scale})
+                      "ncols": 2 if rng.random() < 0.06 else 1, "scale": scale, "ldtype": ld})
     return cases
 
 
@@ -104,20 +113,30 @@ def run_impl(case):
         f = np.stack([f, f], axis=1)
     f0 = f.copy()
     lv = case["levels"]
+    ld = case.get("ldtype", "float64")
+    if ld == "int":
+        lvl_arg = np.array(lv).astype(np.int64) if len(lv) > 1 else int(lv[0])
+        conv = lambda x: int(x)
+    elif ld == "float32":
+        lvl_arg = np.array(lv, dtype=np.float32) if len(lv) > 1 else np.float32(lv[0])
+        conv = lambda x: np.float32(x)
+    else:
+        lvl_arg = np.array(lv) if len(lv) > 1 else lv[0]
+        conv = lambda x: x
     try:
-        r = m.level_length(f, np.array(lv) if len(lv) > 1 else lv[0])
+        r = m.level_length(f, lvl_arg)
         out["len"] = np.atleast_1d(np.asarray(r, dtype=float)).tolist()
         out["len_is_scalar"] = bool(np.ndim(r) == 0)
     except Exception as e:
         out["len"] = core.errkind(e)
     try:
-        out["len_each"] = [float(m.level_length(f, l)) for l in lv]
+        out["len_each"] = [float(m.level_length(f, conv(l))) for l in lv]
     except Exception as e:
         out["len_each"] = core.errkind(e)
     out["paths"] = []
     for pc in case["paths"]:
         try:
-            r = m.level_path(f, pc["level"], get_tria_idx=pc["gt"], n_points=(pc["np"] or None))
+            r = m.level_path(f, conv(pc["level"]), get_tria_idx=pc["gt"], n_points=(pc["np"] or None))
             d = {"pts": np.asarray(r[0], dtype=float).tolist(), "len": float(r[1])}
             if pc["gt"]:
                 d["tri"] = [int(x) for x in r[2]]
